@@ -103,6 +103,7 @@ inductive Stmt where
   | reraise
   | assert_ (c : Expr)
   | try_ (body handlers orelse final : Stmt)
+  | scoped (dst : Nat) (body : Stmt)     -- an inlined call `dst = self.helper(…)`: `return v` inside `body` ends `body` only
   | handler (cls : Nat) (bind : Option Nat) (body rest : Stmt)   -- only inside `try_ _ handlers _ _`
   | noHandler
   | unsupported                         -- the translator met a construct outside the subset *inside an `if` arm* …
@@ -145,8 +146,10 @@ inductive R (W : Type) where
   | exc (e : Val) (s : St W)
   | stuck                              -- outside the subset (type error the code cannot make, unsupported call)
 
-/-- behaviour of the externals: number, arguments, world ↦ value or raised exception, new world; `none` = unsupported -/
-abbrev World (W : Type) := Nat → List Val → W → Option ((Val ⊕ Val) × W)
+/-- behaviour of the externals: number, arguments, world, current fields of `self` ↦ value or raised exception, new world,
+new fields (an external may be a suspension point during which other code – a producer, a callback – updates the object);
+`none` = unsupported -/
+abbrev World (W : Type) := Nat → List Val → W → (Nat → Val) → Option ((Val ⊕ Val) × W × (Nat → Val))
 
 def assocGet : List (Val × Val) → Val → Option Val
   | [], _ => none
@@ -229,9 +232,9 @@ def eval {W : Type} (ext : World W) : Expr → St W → R W
     match eval ext args s with
     | .ok (.list vs) s1 =>
       if f < 100 then builtin f vs s1
-      else (match ext f vs s1.world with
-        | some (.inl v, w) => .ok v { s1 with world := w }
-        | some (.inr e, w) => .exc e { s1 with world := w }
+      else (match ext f vs s1.world s1.fld with
+        | some (.inl v, w, fl) => .ok v { s1 with world := w, fld := fl }
+        | some (.inr e, w, fl) => .exc e { s1 with world := w, fld := fl }
         | none => .stuck)
     | .ok _ _ => .stuck
     | x => x
@@ -289,6 +292,11 @@ def exec {W : Type} (ext : World W) : Stmt → St W → Out × St W
     | .ok _ _ => (.stuck, s)
     | .exc x s1 => (.exc x, s1)
     | .stuck => (.stuck, s)
+  | .scoped dst body, s =>
+    match exec ext body s with
+    | (.normal, s1) => (.normal, { s1 with loc := upd s1.loc dst .none })
+    | (.ret v, s1) => (.normal, { s1 with loc := upd s1.loc dst v })
+    | r => r
   | .reraise, s =>
     match s.handling with
     | some e => (.exc e, s)
